@@ -339,3 +339,119 @@ def _fallback_expected(pycls, handlers):
 
 
 _SENTINEL = object()
+
+
+# ---------------------------------------------------------------------------
+# Mapper.map_foreign: where objects that are no expression nodes go
+
+class _NdArray:
+    """stands for a numpy array"""
+
+    def __repr__(self):
+        return "<ndarray>"
+
+
+class _Unknown:
+    def __repr__(self):
+        return "<an object of an unsupported class>"
+
+
+def judge_foreign(model, mapper_key="pymbolic.mapper:Mapper"):
+    from .absint import Obj, module_env
+    """map_foreign interpreted on a constant of every registered kind, a list,
+    a tuple, a numpy array and an unsupported object, with the handlers as
+    hooks.  -> (witnesses, routes) where routes maps the kind of object to the
+    handler it reaches (None: refused); extras must be passed on unchanged."""
+    cls = model.cls(mapper_key)
+    mem = model.lookup(cls, "map_foreign")
+    if mem is None or mem.kind != "func":
+        raise AnalysisError("Mapper.map_foreign not found")
+    glob = module_env(cls.module.tree, {})
+    glob.setdefault("primitives", Opaque("module primitives"))
+    glob["is_numpy_array"] = lambda v: isinstance(v, _NdArray)
+    it0 = Interp(globals_=glob, max_steps=3000,
+                 attrs=lambda it_, n_, b, at: Opaque(ast.unparse(n_)))
+    for st in cls.module.tree.body:
+        if isinstance(st, ast.Assign) and len(st.targets) == 1 and isinstance(
+                st.targets[0], ast.Name) and st.targets[0].id not in glob:
+            try:
+                glob[st.targets[0].id] = it0.eval(st.value, glob)
+            except (AnalysisError, Raised, StepBound):
+                pass
+    samples = {"int": 5, "float": 2.5, "complex": 1j, "list": [1, 2],
+               "tuple": (1, 2), "ndarray": _NdArray(), "other": _Unknown(),
+               "str": "s"}
+    want = {"int": "map_constant", "float": "map_constant",
+            "complex": "map_constant", "list": "map_list",
+            "tuple": "map_tuple", "ndarray": "map_numpy_array",
+            "other": None, "str": None}
+
+    def isinst(it, node, a, k):
+        v, c = a
+        cs = c if isinstance(c, (tuple, list)) else (c,)
+        names = []
+        for x in cs:
+            w = getattr(x, "what", None)
+            if w is None:
+                raise AnalysisError(f"isinstance(..., {x!r})")
+            names.append(w.replace(".", " ").split(" ")[-1])
+        if isinstance(v, _NdArray):
+            return "ndarray" in names
+        if isinstance(v, _Unknown):
+            return False
+        for nm in names:
+            if nm == "VALID_CONSTANT_CLASSES":
+                if isinstance(v, (int, float, complex)):
+                    return True
+            elif nm in ("int", "float", "complex", "list", "tuple", "str",
+                        "bool"):
+                if isinstance(v, {"int": int, "float": float,
+                                  "complex": complex, "list": list,
+                                  "tuple": tuple, "str": str,
+                                  "bool": bool}[nm]):
+                    return True
+            elif nm in ("ndarray", "Expression", "number", "generic"):
+                continue
+            else:
+                raise AnalysisError(f"isinstance(..., {nm})")
+        return False
+    wit, routes = [], {}
+    for kind, obj in samples.items():
+        calls = []
+        me = Obj("__mapper__", {})
+        for h in ("map_constant", "map_list", "map_tuple", "map_numpy_array"):
+            me.fields[h] = (lambda *a, _h=h, **k: calls.append((_h, a, k))
+                            or ("result", _h))
+        it = Interp(calls={
+            "isinstance": isinst,
+            "is_numpy_array": lambda it_, nd, a, k: isinstance(a[0], _NdArray),
+            "repr": lambda it_, nd, a, k: "<repr>",
+            "type": lambda it_, nd, a, k: Opaque("class of " + kind)},
+            attrs=lambda it_, n_, b, at: (
+                Opaque("VALID_CONSTANT_CLASSES") if at ==
+                "VALID_CONSTANT_CLASSES" else Opaque(ast.unparse(n_))),
+            globals_=dict(glob, is_numpy_array=lambda v: isinstance(
+                v, _NdArray)), max_steps=5000)
+        try:
+            got = it.call_function(mem.node, [me, obj, "A1"],
+                                   dict(glob, __kwargs__={"k": "K1"}))
+        except Raised:
+            routes[kind] = None
+            if want[kind] is not None:
+                wit.append(f"{kind}: refused, expected {want[kind]}")
+            continue
+        except StepBound:
+            wit.append(f"{kind}: does not terminate")
+            continue
+        if len(calls) != 1 or got != ("result", calls[0][0]):
+            wit.append(f"{kind}: answers {got!r} after the handler calls "
+                       f"{[c[0] for c in calls]}")
+            continue
+        h, a, k = calls[0]
+        routes[kind] = h
+        if h != want[kind]:
+            wit.append(f"{kind}: goes to {h}, expected "
+                       f"{want[kind] or 'a refusal'}")
+        elif a != (obj, "A1") or k != {"k": "K1"} or a[0] is not obj:
+            wit.append(f"{kind}: {h} is not handed (object, *extras, **kw)")
+    return wit, routes
